@@ -103,6 +103,88 @@ Proof.
   destruct (Qminmax_gt u v) as [Hmin Hmax]; [lra|].
   unfold i2p1, cell_of. rewrite Hmin, Hmax, Hu, Hv.
   assert (Hnz : ~ inject_Z nz == 0) by (pose proof (inject_Z_pos nz Hn); lra).
-  unfold Zminus. rewrite !inject_Z_plus, inject_Z_opp. unfold half_cell.
+  unfold Zminus. rewrite !inject_Z_plus, !inject_Z_opp. change (inject_Z 1) with 1. unfold half_cell.
   field. exact Hnz.
 Qed.
+
+(* ---------- Part A: all axes ---------- *)
+(* coordinate j of the centre of cell t (what Mesh.index2point computes, see C01) *)
+Definition centre_coord (m : mesh) (t : list Z) (j : nat) : Q :=
+  i2p1 (nth j (pmin (reg m)) 0)
+       (cell_of (nth j (pmin (reg m)) 0) (nth j (pmax (reg m)) 0) (nth j (n m) 1%Z))
+       (nth j t 0%Z).
+Definition centre (m : mesh) (t : list Z) : list Q :=
+  map (centre_coord m t) (iota 0 (length (pmin (reg m)))).
+
+Lemma index_of_spec s l i : index_of s l = Some i -> (i < length l)%nat /\ nth i l ""%string = s.
+Proof.
+  revert i; induction l as [|h t IH]; simpl; intros i H; [discriminate|].
+  destruct (String.eqb_spec s h) as [->|Hn].
+  - inversion H; subst. split; [lia|reflexivity].
+  - destruct (index_of s t) as [i'|]; [|discriminate]. inversion H; subst.
+    destruct (IH i' eq_refl) as [H1 H2]. split; [lia|exact H2].
+Qed.
+
+Lemma dim2index_spec r a i : dim2index r a = OK i -> (i < length (dims r))%nat /\ nth i (dims r) ""%string = a.
+Proof.
+  unfold dim2index. destruct (index_of a (dims r)) eqn:E; [|discriminate].
+  intros H; inversion H; subst. apply index_of_spec; exact E.
+Qed.
+
+Lemma region_rotate90_inv ip r a b k ref r' :
+  region_rotate90 ip r a b k ref = OK r' ->
+  exists R i1 i2, a <> b /\ rot_reference r ref = OK R /\ dim2index r a = OK i1 /\ dim2index r b = OK i2 /\
+    let p1 := rot_pt (fst (qturn k)) (snd (qturn k)) i1 i2 R (pmin r) in
+    let p2 := rot_pt (fst (qturn k)) (snd (qturn k)) i1 i2 R (pmax r) in
+    pmin r' = map2 Qmin p1 p2 /\ pmax r' = map2 Qmax p1 p2 /\ dims r' = dims r /\
+    units r' = rot_units k i1 i2 (units r) /\ tf r' = tf r.
+Proof.
+  unfold region_rotate90. destruct (String.eqb_spec a b) as [|Hab]; [discriminate|].
+  destruct (rot_reference r ref) as [R|]; [|discriminate]. cbn [bind].
+  destruct (dim2index r a) as [i1|]; [|discriminate]. cbn [bind].
+  destruct (dim2index r b) as [i2|]; [|discriminate]. cbn [bind].
+  intros H. exists R, i1, i2. split; [exact Hab|]. do 3 (split; [reflexivity|]).
+  destruct ip.
+  - destruct (existsb _ _); [discriminate|]. inversion H; subst; cbn. repeat split; reflexivity.
+  - unfold mk_region in H.
+    repeat match type of H with
+           | (if ?c then _ else _) = _ => destruct c; [discriminate|]
+           | bind (if ?c then _ else _) _ = _ => destruct c; [cbn [bind] in H; discriminate|]
+           | bind (OK _) _ = _ => cbn [bind] in H
+           end.
+    inversion H; subst; cbn. repeat split; reflexivity.
+Qed.
+
+Lemma mesh_rotate90_inv ip m a b k ref m' :
+  mesh_rotate90 ip m a b k ref = OK m' ->
+  exists r' i1 i2, region_rotate90 ip (reg m) a b k ref = OK r' /\
+    dim2index (reg m) a = OK i1 /\ dim2index (reg m) b = OK i2 /\
+    reg m' = r' /\ n m' = rot_n k i1 i2 (n m) /\ bc m' = bc m.
+Proof.
+  unfold mesh_rotate90.
+  destruct (region_rotate90 ip (reg m) a b k ref) as [r'|]; [|discriminate]. cbn [bind].
+  destruct (dim2index (reg m) a) as [i1|]; [|discriminate]. cbn [bind].
+  destruct (dim2index (reg m) b) as [i2|]; [|discriminate]. cbn [bind].
+  match goal with |- bind (mapM ?f ?l) _ = _ -> _ => generalize f; intros g end.
+  destruct (mapM g (subs m)) as [s'|] eqn:E; [|discriminate]. cbn [bind].
+  intros H; inversion H; subst; cbn. exists r', i1, i2. repeat split; try reflexivity.
+Qed.
+
+Lemma nth_rot_pt c s i1 i2 R p j : i1 <> i2 -> (i1 < length p)%nat -> (i2 < length p)%nat ->
+  nth j (rot_pt c s i1 i2 R p) 0 =
+  if (j =? i2)%nat then nth i2 R 0 + (s * (nth i1 p 0 - nth i1 R 0) + c * (nth i2 p 0 - nth i2 R 0))
+  else if (j =? i1)%nat then nth i1 R 0 + (c * (nth i1 p 0 - nth i1 R 0) - s * (nth i2 p 0 - nth i2 R 0))
+  else nth j p 0.
+Proof. intros H H1 H2. unfold rot_pt. nthsolve. Qed.
+
+Lemma rot_pt_length c s i1 i2 R p : length (rot_pt c s i1 i2 R p) = length p.
+Proof. unfold rot_pt. rewrite !set_nth_length. reflexivity. Qed.
+
+Lemma nth_ofnat (sh : list nat) j : (j < length sh)%nat ->
+  nth j (map Z.of_nat sh) 1%Z = Z.of_nat (nth j sh 0%nat).
+Proof.
+  intros H. rewrite (nth_indep _ 1%Z (Z.of_nat 0)) by (rewrite map_length; exact H).
+  apply map_nth.
+Qed.
+Lemma nth_ofnat0 (sh : list nat) j : nth j (map Z.of_nat sh) 0%Z = Z.of_nat (nth j sh 0%nat).
+Proof. change 0%Z with (Z.of_nat 0). apply map_nth. Qed.
